@@ -15,6 +15,7 @@
    not always (known finding C17/readers-race-on-memoising-caches; model-level shape: C17_unguarded_refuted). *)
 From Coq Require Import List Bool NArith.
 From PyCasbin Require Import Base SyncedBase Synced SyncedProofs SyncedTie.
+From PyCasbin Require PatternRM SyncedReads.
 From PyCasbinGen Require Import SyncedGen.
 Import ListNotations.
 
@@ -168,3 +169,38 @@ Example C17_example_table :
   = [Some (Some "add_policy"%text, LW, true); Some (Some "enforce"%text, LR, true)]
   /\ 100 <= N.of_nat (List.length synced_table) /\ callable synced_table "add_policy" = true.
 Proof. vm_compute. repeat split; intro; discriminate. Qed.
+
+(* ---------------- the commuting of memoising reads, for the pattern role manager ----------------
+   C17_linearizable needs `disciplined`: a read-locked call does not change the state.  RoleManager's queries DO write -
+   they memoise never-seen names (_get_role) - so the property holds only if those writes are invisible.  For the
+   model of the pattern role manager (PatternRM.v, C14) they are: queries issued in between, by this reader or any other
+   reader of the same read section, change no later answer, and two batches of queries may run in either order.
+   (The remaining trust: this is about call SEQUENCES; interleavings inside one query are explored by the one-preemption
+   strata of the C14 and C17 checks, which found and led to the repair of /repo 70fa92b.) *)
+Theorem C17_memoising_reads_invisible : forall mf m h qs a b,
+  PatternRM.no_deletes h = true -> forallb SyncedReads.is_query qs = true ->
+  PatternRM.in_scope mf (h ++ [PatternRM.PHas a b]) = true -> PatternRM.in_scope mf ((h ++ qs) ++ [PatternRM.PHas a b]) = true ->
+  fst (PatternRM.pm_has_link mf (PatternRM.pm_run mf (PatternRM.pm_empty m) (h ++ qs)) a b)
+  = fst (PatternRM.pm_has_link mf (PatternRM.pm_run mf (PatternRM.pm_empty m) h) a b).
+Proof. exact SyncedReads.memoising_reads_invisible. Qed.
+Print Assumptions C17_memoising_reads_invisible.
+
+Theorem C17_memoising_reads_commute : forall mf m h q1 q2 a b,
+  PatternRM.no_deletes h = true -> forallb SyncedReads.is_query q1 = true -> forallb SyncedReads.is_query q2 = true ->
+  PatternRM.in_scope mf ((h ++ q1 ++ q2) ++ [PatternRM.PHas a b]) = true ->
+  PatternRM.in_scope mf ((h ++ q2 ++ q1) ++ [PatternRM.PHas a b]) = true ->
+  fst (PatternRM.pm_has_link mf (PatternRM.pm_run mf (PatternRM.pm_empty m) (h ++ q1 ++ q2)) a b)
+  = fst (PatternRM.pm_has_link mf (PatternRM.pm_run mf (PatternRM.pm_empty m) (h ++ q2 ++ q1)) a b).
+Proof. exact SyncedReads.memoising_reads_commute. Qed.
+Print Assumptions C17_memoising_reads_commute.
+
+Example C17_example_memoising_reads :
+  let mf := PatternRM.table_mf [(5, 1); (6, 1); (5, 2); (6, 2); (7, 2); (1, 2)]%N in
+  let h := [PatternRM.PAdd 1 3; PatternRM.PAdd 3 4; PatternRM.PAdd 2 8]%N in
+  let q1 := [PatternRM.PHas 5 3; PatternRM.PRoles 6]%N in
+  let q2 := [PatternRM.PHas 7 8; PatternRM.PUsers 3]%N in
+  PatternRM.no_deletes h = true /\ forallb SyncedReads.is_query q1 = true /\ forallb SyncedReads.is_query q2 = true /\
+  PatternRM.in_scope mf ((h ++ q1 ++ q2) ++ [PatternRM.PHas 5 4])%N = true /\
+  PatternRM.in_scope mf ((h ++ q2 ++ q1) ++ [PatternRM.PHas 5 4])%N = true /\
+  fst (PatternRM.pm_has_link mf (PatternRM.pm_run mf (PatternRM.pm_empty 10) (h ++ q1 ++ q2)) 5 4)%N = true.
+Proof. vm_compute. repeat split; reflexivity. Qed.
